@@ -204,6 +204,10 @@ func (s *BaseVisitor) EnterOC_Explain(c *parser.OC_ExplainContext) {
 	s.newUnsupportedRuleError(c)
 }
 
+func (s *BaseVisitor) EnterOC_StandaloneCall(c *parser.OC_StandaloneCallContext) {
+	s.newUnsupportedRuleError(c)
+}
+
 /**************** EMPTY STUBS ON BASEVISITOR  */
 func (s *BaseVisitor) VisitTerminal(node antlr.TerminalNode) {}
 
@@ -301,8 +305,6 @@ func (s *BaseVisitor) EnterOC_Remove(c *parser.OC_RemoveContext) {}
 func (s *BaseVisitor) EnterOC_RemoveItem(c *parser.OC_RemoveItemContext) {}
 
 func (s *BaseVisitor) EnterOC_InQueryCall(c *parser.OC_InQueryCallContext) {}
-
-func (s *BaseVisitor) EnterOC_StandaloneCall(c *parser.OC_StandaloneCallContext) {}
 
 func (s *BaseVisitor) EnterOC_YieldItems(c *parser.OC_YieldItemsContext) {}
 
